@@ -253,3 +253,43 @@ Theorem C04_chunk_process_correct rho tab cs ce sig l d kept proc : wf_tab tab -
   bits_at (nir_run (cval rho tab) rho (nlen sig) l (nval rho sig)) cs (ce - cs).
 Proof. exact (chunk_process_correct rho tab cs ce sig l d kept proc). Qed.
 Print Assumptions C04_chunk_process_correct.
+
+(* ---------------- Slice / Concat on the right-hand side (_ir.emit_rhs: pure net selection) ---------------- *)
+Theorem C04_slice_rhs_correct rho sg v lo hi : 0 <= lo <= hi -> hi <= nlen v ->
+  nlen (nslice v lo hi) = hi - lo /\ nval rho (nslice v lo hi) = bits_at (sval rho sg v) lo (hi - lo).
+Proof. exact (slice_rhs_correct rho sg v lo hi). Qed.
+Print Assumptions C04_slice_rhs_correct.
+
+Theorem C04_cat_rhs_correct rho (parts : list (list net * bool)) :
+  nval rho (flat_map fst parts) = cat_of (map (fun p => (sval rho (snd p) (fst p), nlen (fst p))) parts) /\
+  nlen (flat_map fst parts) = fold_right (fun p acc => nlen (fst p) + acc) 0 parts.
+Proof. exact (cat_rhs_correct rho parts). Qed.
+Print Assumptions C04_cat_rhs_correct.
+Example C04_slice_cat_example : let rho : valuation := fun i => Nat.eqb i 2 in
+  nval rho (nslice [NV 0%nat; NV 1%nat; NV 2%nat] 1 3) = 2 /\ bits_at (sval rho true [NV 0%nat; NV 1%nat; NV 2%nat]) 1 2 = 2 /\
+  nval rho (flat_map fst [([NV 2%nat], true); ([NV 0%nat; NV 2%nat], false)]) = 5.
+Proof. vm_compute. repeat split; reflexivity. Qed.
+
+(* ---------------- the structural tie compares exactly what the theorems are about ---------------- *)
+(* lower_op2 (of C04_lower_operator_correct_op2) is emit_binary on the NIR operator and operands `ir_op2` names, and
+   emit_binary evaluates the cell `cell_desc2` describes: the harness compares ir_op2 + cell_desc2 (and cell_desc1,
+   part_desc) with the cells in the text the real backend writes, for operand widths up to 12 *)
+Theorem C04_lower_op2_via_ir rho o a sa b sb : exists fin : Z -> Z * Z * bool,
+  lower_op2 rho o a sa b sb =
+  let '(n, a', b') := ir_op2 o a sa b sb in option_map fin (emit_binary rho n a' b').
+Proof. exact (lower_op2_via_ir rho o a sa b sb). Qed.
+Print Assumptions C04_lower_op2_via_ir.
+
+(* ---------------- the document evaluator: a module instantiated twice, negative-edge flip-flop ---------------- *)
+(* (the backend writes one RTLIL module per fragment, so no generated design instantiates a module twice; the
+   flattening handles it) module 1: q <= d on the falling edge of clk; top: two instances chained *)
+Example C04_run_two_instances_example :
+  let sub := Mod [Wire 1 WIn None; Wire 2 WIn None; Wire 2 WOut (Some 1)] []
+                 [IDff 2 false [KW 1 0 2] [KW 0 0 1] [KW 2 0 2]] in
+  let top := Mod [Wire 1 WIn None; Wire 2 WIn None; Wire 2 WNone None; Wire 2 WOut None] []
+                 [ISub 1 [(0%nat, [KW 0 0 1]); (1%nat, [KW 1 0 2]); (2%nat, [KW 2 0 2])];
+                  ISub 1 [(0%nat, [KW 0 0 1]); (1%nat, [KW 2 0 2]); (2%nat, [KW 3 0 2])]] in
+  run [top; sub] [Some ([], 3%nat, 2); Some ([0%nat], 2%nat, 2); Some ([1%nat], 2%nat, 2)] [(0%nat, 1); (1%nat, 3)]
+      [[(0%nat, 0)]; [(0%nat, 1)]; [(0%nat, 0)]] =
+  [0; 1; 1; 1;   0; 1; 3; 1;   0; 1; 3; 1;   0; 3; 3; 3].
+Proof. vm_compute. reflexivity. Qed.
